@@ -5,16 +5,7 @@ verus! {
 //@include lib/prelude.rs
 //@include lib/keys.rs
 
-pub open spec fn ikey(i: u16, id: u32) -> AKey { akey(i, NodeMode::Item, id) }
-pub open spec fn ukey(i: u16, id: u32) -> AKey { akey(i, NodeMode::Updated, id) }
-pub open spec fn mkey(i: u16) -> AKey { akey(i, NodeMode::Metadata, 0) }
-/// C06: an index is stale iff it has an updated mark or no metadata
-pub open spec fn stale(v: DbView, i: u16) -> bool {
-    (exists|k: AKey| #[trigger] v.contains_key(k) && k.index == i && k.kind == NodeMode::Updated) || !v.contains_key(mkey(i))
-}
-pub open spec fn new_leaf(vector: Seq<f32>) -> AVal {
-    AVal::Leaf(LeafV { header: Dist::new_header_spec(Dist::enc(vector)), vector: Dist::enc(vector) })
-}
+//@include lib/specs_store.rs
 
 impl Writer {
 //@extract src/writer.rs | impl<D: Distance> Writer<D> | add_item
@@ -66,13 +57,53 @@ impl Writer {
 //@extract src/writer.rs | impl<D: Distance> Writer<D> | contains_item
 //@subst
 <<<
-        self.database.get__DecodeIgnore(rtxn, &Key::item(self.index, item))
-            .map(|opt| opt.is_some())
+.map(|opt| opt.is_some())
 ===
-        map_is_some_into_(self.database.get__DecodeIgnore(rtxn, &Key::item(self.index, item)))
+.map(|opt: Option<()>| -> (b: bool) ensures b == (opt is Some) { opt.is_some() })
 >>>
 //@spec
     ensures r matches Ok(b) ==> b == rtxn.view().contains_key(ikey(self.index, item))
+//@end
+
+//@extract src/writer.rs | impl<D: Distance> Writer<D> | item_vector
+//@subst
+<<<
+.map(|leaf| {
+===
+.map(|leaf: Leaf| -> (vec: Vec<f32>) ensures vec@ =~= trunc(Dist::dec(leaf.vector.vv()), self.dimensions as int) {
+>>>
+//@spec
+    ensures
+        // C05: present iff the item key exists; the vector is what the codec decodes, cut to the declared dimension
+        r matches Ok(o) ==> match o {
+            Some(v) => rtxn.view().contains_key(ikey(self.index, item)) && (rtxn.view()[ikey(self.index, item)] matches AVal::Leaf(l)
+                && v@ == trunc(Dist::dec(l.vector), self.dimensions as int)),
+            None => !(rtxn.view().contains_key(ikey(self.index, item)) && rtxn.view()[ikey(self.index, item)] is Leaf),
+        }
+//@end
+
+//@extract src/writer.rs | impl<D: Distance> Writer<D> | iter
+//@spec
+    ensures
+        r matches Ok(it) ==> it.inner.wf(rtxn.view(), Prefix { index: self.index, mode: Some(NodeMode::Item) }) && it.inner.pos@ == 0
+            && it.dimensions == self.dimensions && it.inner.faulty@ == rtxn.read_faulty(),
+        r matches Err(e) ==> e is Heed,
+//@end
+
+//@extract src/writer.rs | impl<D: Distance> Writer<D> | is_empty
+//@subst
+<<<
+.map(|mut iter| iter.next().is_none())
+===
+.map(|mut iter: ItemIter| -> (b: bool)
+            requires iter.inner.wf(rtxn.view(), Prefix { index: self.index, mode: Some(NodeMode::Item) }) && iter.inner.pos@ == 0 && iter.inner.faulty@ == rtxn.read_faulty()
+            ensures items_are_leaves(rtxn.view(), self.index) ==> (b == !has_item(rtxn.view(), self.index) || (!b && rtxn.read_faulty()))
+            { iter.next().is_none() })
+>>>
+//@spec
+    ensures
+        // C05: emptiness agrees with the set of stored items
+        r matches Ok(b) ==> (items_are_leaves(rtxn.view(), self.index) ==> (b == !has_item(rtxn.view(), self.index) || (!b && rtxn.read_faulty()))),
 //@end
 
 //@extract src/writer.rs | impl<D: Distance> Writer<D> | need_build
@@ -82,12 +113,6 @@ impl Writer {
 
 //@extract src/writer.rs | impl<D: Distance> Writer<D> | clear
 //@attr #[verifier::exec_allows_no_decreases_clause]
-//@subst
-<<<
-.database.prefix_iter_mut__PrefixCodec(wtxn, &Prefix::all(self.index))?;
-===
-.database.prefix_iter_mut__PrefixCodec_DecodeIgnore(wtxn, &Prefix::all(self.index))?;
->>>
 //@spec
     ensures
         other_indexes_unchanged(old(wtxn).view(), final(wtxn).view(), self.index),
@@ -110,5 +135,6 @@ impl Writer {
 //@end
 }
 
+//@include lib/item_read.rs
 } // verus!
 fn main() {}
